@@ -1,4 +1,8 @@
-"""Developer aid: evaluate the individual oracle clauses on one scenario (replay file or desc JSON)."""
+"""Developer aid: evaluate the individual oracle clauses of C13 / C14 / C15 on one scenario.
+
+usage (environment as in bin/check):  python -m harness.sync_debug C15 <replay-or-desc.json> ['extra Coq term' ...]
+Inside the terms: cc : case_sync, c := cs_case cc, fr := cs_frepr cc.
+"""
 import json
 import os
 import subprocess
@@ -22,7 +26,9 @@ def main():
     payload = json.load(open(path))
     desc = payload.get("input", payload)
     case = sync_gen.run_scenario(desc, prop)
-    out = "/tmp/sy/debug_%s.v" % prop
+    import tempfile
+
+    out = os.path.join(tempfile.mkdtemp(prefix="sync-debug."), "debug_%s.v" % prop)
     with open(out, "w") as fh:
         fh.write("From SV Require Import Base Json Canon Sync SyncObs CorrC13 Corr%s.\nLocal Open Scope N_scope.\n" % prop)
         fh.write("Definition cc : case_sync := %s.\nDefinition c := cs_case cc.\nDefinition fr := cs_frepr cc.\n" % case.coq)
